@@ -7,7 +7,7 @@ EXHAUSTIVE = False
 EXPLANATION = ("Active-error protocol of the skeleton, on all paths of every instance: diagnostics are pushed only behind the "
                "active_error guard together with setting error_since_advance (S9); the guard is cleared only by a successful "
                "consumption (S10); diagnostic spans come from Parser::span, which reads spans[pos] or max_offset (S11); a report "
-               "precedes error-mode consumption (S8). Gives at most one syntax diagnostic per consumed token with spans inside the "
+               "precedes error-mode consumption (S8); at the end of the token stream the current token becomes the entry point's own end token (S7). Gives at most one syntax diagnostic per consumed token with spans inside the "
                "source. 'Earliest possible position' needs exact decision sets: TVAL validates, for the 300+ rule functions of the analysed grammars that are not left-recursive, predicate-free and not used in an ordered choice, that every decision of the emitted code uses exactly the first/follow/predict sets recomputed from the grammar text (sampled grammars); for the remaining rule functions it is not decided.")
 
 
@@ -17,6 +17,7 @@ def run(ctx, rep):
         lambda i, r, o: skel.s9_guard(i, r),
         lambda i, r, o: skel.s10_clear(i, r),
         lambda i, r, o: skel.s11_span(i, r),
+        lambda i, r, o: skel.s7_saturate(i, r),
     ])
     tval.tval_rule(ctx, rep)
     common.corpus_note(ctx, rep)
